@@ -18,7 +18,7 @@ from . import core, model_io as M, seams
 PROP = "C20"
 RUNS = {"quick": 4000, "thorough": 120000}
 RUN_TIMEOUT = 120.0
-ACCESS = ["path", "stringio", "wrapper", "realpath", "realhandle", "reuse_stringio", "reuse_wrapper", "shorttext"]
+ACCESS = ["path", "stringio", "wrapper", "realpath", "realhandle", "reuse_stringio", "reuse_wrapper", "shorttext", "offset_stringio"]
 ASSUMPTIONS = [
     "the oracle (model_io.refparse + convention model) is a second, independent reading of the loader documentation; "
     "content about which the documentation is silent is UNSPEC and never judged",
@@ -88,7 +88,7 @@ def _gen_file(rng, cfg, fmt=None):
         dev["eintr"] = sorted(set(rng.randrange(0, 12) for _ in range(rng.randrange(1, 4))))
     if cfg["dev"].get("eio") and rng.random() < 0.4:
         nb = len(text.encode("utf-8", "surrogatepass"))
-        dev["eio_at"] = rng.randrange(0, nb + 3)
+        dev["eio_at" if rng.random() < 0.6 else "eio_once_at"] = rng.randrange(0, nb + 3)
     return {"fmt": fmt, "style": style, "text": text, "clean": not faults, "rows": rows if not faults else None,
             "faults": faults, "dev": dev, "flavor": flavor}
 
@@ -127,6 +127,16 @@ def gen_plan(rng, tier, i):
     for _ in range(rng.choice([0, 1, 2, 3])):
         name = rng.choice(sorted(files))
         new = _gen_file(rng, cfg, fmt=files[name]["fmt"] if rng.random() < 0.7 else None)
+        if rng.random() < 0.3:
+            # same-size rewrite: one digit of the current content replaced (size and, almost always, the
+            # whole-second mtime stay the same -- what a cheap "has it changed" test would look at)
+            old_text = files[name]["text"]
+            pos = [k for k, ch in enumerate(old_text) if ch.isdigit()]
+            if pos:
+                k = rng.choice(pos)
+                d = rng.choice([c for c in "123456789" if c != old_text[k]])
+                new = dict(files[name], text=old_text[:k] + d + old_text[k + 1:], clean=False, rows=None,
+                           faults=list(files[name]["faults"]) + [{"kind": "same_size_rewrite"}])
         pos = rng.randrange(0, len(ops) + 1)
         ops.insert(pos, {"op": "rewrite", "file": name, "spec": new})
         for _ in range(rng.choice([1, 2])):
@@ -210,7 +220,7 @@ def _load_once(mio, fs, spec, name, access, tmpdir, stats):
     kw = M.loader_kwargs(style) if fmt != "patterns" else {}
     if style.get("dtype") == "int":
         kw["dtype"] = int
-    simpath = "/simfs/" + name
+    simpath = os.path.join(tmpdir, name)  # a real path with the same content: os.stat()/exists() see a real file
     extra = {}
     seams.WARN.take()
     if access == "path":
@@ -238,6 +248,20 @@ def _load_once(mio, fs, spec, name, access, tmpdir, stats):
         elif access == "reuse_wrapper" and not fs.dev.get(simpath):
             h.seek(0)
             extra["second"] = _call(fn, h, **kw)
+    elif access == "offset_stringio":
+        # the caller has already consumed the first physical line of its handle (a header it reads itself): the
+        # loader must load the rest, from where the handle stands; afterwards the caller rewinds and loads everything
+        h = io.StringIO(text)
+        h.readline()
+        fname = str(h)
+        extra["rest_text"] = text[h.tell():]
+        extra["rest"] = _call(fn, h, **kw)
+        extra["rest_warns"] = seams.WARN.take()
+        if h.closed:
+            stats.inc("probe.caller_handle_closed")
+            h = io.StringIO(text)
+        h.seek(0)
+        out = _call(fn, h, **kw)
     elif access == "shorttext":
         # universal-newline translation is the text layer's job; this stream hands out already-translated text
         h = seams.SimText(text.replace("\r\n", "\n"), chunks=spec.get("dev", {}).get("chunks") or [5, 11, 3], fired=fs.fired)
@@ -272,8 +296,7 @@ def execute(plan, want_logs=False):
     fs = SimFSFor(plan, fired)
     cur = {name: spec for name, spec in plan["files"].items()}
     history = {name: [] for name in cur}
-    need_real = any(op.get("access", "").startswith("real") for op in plan["ops"])
-    tmpdir = tempfile.mkdtemp(prefix="mirsim-c20-") if need_real else None
+    tmpdir = tempfile.mkdtemp(prefix="mirsim-c20-")
     violations = []
     log.add("cfg", sorted((k, repr(v)) for k, v in plan["cfg"].items()))
     try:
@@ -302,7 +325,17 @@ def execute(plan, want_logs=False):
             delta = {k: fired.get(k, 0) - before.get(k, 0) for k in fired if fired.get(k, 0) != before.get(k, 0)}
             for k, v in delta.items():
                 stats.inc("fault.dev." + k, v)
-            found, oclass = judge(fmt, verdict, out, warns, fname, text, bool(delta.get("eio")))
+            found, oclass = judge(fmt, verdict, out, warns, fname, text, bool(delta.get("eio") or delta.get("eio_once")))
+            if "rest" in extra:
+                rest_text = extra["rest_text"]
+                rv = M.refparse(fmt, rest_text, spec["style"]["delim"], spec["style"]["comment"])
+                if spec["style"].get("dtype") == "int":
+                    rv = _int_verdict(rv, rest_text, spec["style"])
+                if fmt == "patterns" and rv["kind"] != "UNSPEC" and "pattern" not in text[: len(text) - len(rest_text)]:
+                    rv = {"kind": "UNSPEC", "why": "pattern file entered after its first line"}
+                f2, _ = judge(fmt, rv, extra["rest"], extra["rest_warns"], fname, rest_text, False)
+                found.extend(("OFFSET_" + cls if not cls.startswith("ROW") else cls, "after the caller consumed the first line: " + d) for cls, d in f2)
+                stats.inc("probe.offset_load")
             if "second" in extra and outcome_digest(extra["second"]) != outcome_digest(out):
                 found.append(("REUSE_DIFFERS", "%s on a rewound handle: %s then %s" % (
                     M.LOADER[fmt], outcome_digest(out), outcome_digest(extra["second"]))))
@@ -363,13 +396,15 @@ def SimFSFor(plan, fired):
 
 
 def _store(fs, tmpdir, name, spec):
+    """The durable content of a path: registered with the simulated device AND written to a real file of the same
+    name, so that anything the library asks the OS about the path (stat, exists, size, mtime) is answered
+    truthfully while `open` goes through the simulated device."""
     data = spec["text"].encode("utf-8")
-    path = "/simfs/" + name
+    path = os.path.join(tmpdir, name)
     fs.files[path] = data
     fs.dev[path] = spec.get("dev") or {}
-    if tmpdir:
-        with open(os.path.join(tmpdir, name), "wb") as f:
-            f.write(data)
+    with open(path, "wb") as f:
+        f.write(data)
 
 
 def _oracle_guard(fmt, spec, verdict):
@@ -435,7 +470,7 @@ def _execute_walk(plan, want_logs):
         verdict = M.refparse(fmt, vtext, spec["style"]["delim"], spec["style"]["comment"])
         if spec["style"].get("dtype") == "int":
             verdict = _int_verdict(verdict, vtext, spec["style"])
-        out, warns, fname, _ = _load_once(mio, fs, vspec, "w.txt", "stringio", None, stats)
+        out, warns, fname, _ = _load_once(mio, fs, vspec, "w.txt", "stringio", "/nonexistent", stats)
         found, oclass = judge(fmt, verdict, out, warns, fname, vtext, False)
         stats.inc("walk.loads")
         stats.inc("walk.%s" % tag[0])
